@@ -145,6 +145,12 @@ func (n *Tree[V]) addNode(path string, wildcardKeys []string, inStaticToken bool
 			}
 
 			wildcardKeys = append(wildcardKeys, thisToken)
+
+			// Ensure the current wildcard keys are the same as the old ones (as for all other leaf nodes).
+			if len(n.catchAllChild.wildcardKeys) != 0 && !slices.Equal(n.catchAllChild.wildcardKeys, wildcardKeys) {
+				return nil, fmt.Errorf("%w: %s is ambigous - wildcard keys differ", ErrInvalidPath, path)
+			}
+
 			n.catchAllChild.wildcardKeys = wildcardKeys
 
 			return n.catchAllChild, nil
